@@ -105,6 +105,21 @@ Check (C18_iface_expiry_refuted_when_silenced :
   dhif_silenced ex_d14b_state 10002000 /\
   snd (dhif_poll ex_xid_of 1 1500 true 10002000 ex_d14b_state) = [ObEvent None; ObPollAt 10500000]).
 
+Check (C18_reset_and_setters_never_extend_lease : forall s,
+  ds_state (dhcp_reset s) = Discovering 0 /\
+  (forall cfg ra rb rbg e, ds_state s = Renewing cfg ra rb rbg e ->
+     snd (dhcp_poll (dhcp_reset s)) = Some EvDeconfigured) /\
+  (forall sp cp, ds_state (dhcp_set_ports s sp cp) = ds_state s /\
+                 ds_config_changed (dhcp_set_ports s sp cp) = ds_config_changed s) /\
+  (forall m, ds_state (dhcp_set_max_lease_duration s m) = ds_state s /\
+             ds_config_changed (dhcp_set_max_lease_duration s m) = ds_config_changed s) /\
+  (forall c, ds_state (dhcp_set_retry_config s c) = ds_state s /\
+             ds_config_changed (dhcp_set_retry_config s c) = ds_config_changed s) /\
+  (forall b, ds_state (dhcp_set_ignore_naks s b) = ds_state s /\
+             ds_config_changed (dhcp_set_ignore_naks s b) = ds_config_changed s) /\
+  (ds_state (dhcp_set_receive_packet_buffer s) = ds_state s /\
+   ds_config_changed (dhcp_set_receive_packet_buffer s) = ds_config_changed s)).
+
 Check (C18_example :
   Forall call_typed ex_calls /\ Forall call_sane ex_calls /\ ports_ok 1 [] ex_calls /\
   map dhcp_ret_summary (dhcp_rets 1 dhcp_new ex_calls) =
